@@ -67,15 +67,15 @@ func init() {
 }
 
 type env struct {
-	rec              *sim.RPCRecorder
+	rec               *sim.RPCRecorder
 	open, auth, authT *rest.API
 	openURL, authURL  string
 	authTURL          string // credentials configured and tracing on
-	scriptErr        error
-	failRPC          map[string]error // per endpoint
-	answers          map[string]interface{}
-	hc               *http.Client
-	clOpen           client.Client
+	scriptErr         error
+	failRPC           map[string]error // per endpoint
+	answers           map[string]interface{}
+	hc                *http.Client
+	clOpen            client.Client
 }
 
 const user, pass = "verif-user", "verif-pass"
@@ -711,7 +711,7 @@ func pinOptions(c *fw.Ctx, e *env, r *fw.Rand, viaPath bool) {
 			}
 			gotOpts = pin.PinOptions
 			if method == "POST" {
-				if pin.MaxDepth != exp.Mode.ToPinDepth() {
+				if pin.MaxDepth != mon.DepthOf(exp.Mode) {
 					c.Violation("C11/max-depth-inconsistent-with-mode/"+exp.Mode.String(), fmt.Sprintf("mode=%s requested, the pin handed to the cluster has max_depth %d", exp.Mode, pin.MaxDepth), nil)
 				}
 				if pin.Type != api.DataType || len(pin.Allocations) != 0 || pin.Reference != nil {
